@@ -869,4 +869,60 @@ def predictUnder {W V : Type} [Inhabited V] (E : Env) (S : ModeSem W V) (now : S
     (m : Model) (ws : Nat → W) (inputs : List V) : List V :=
   predict E (S now) m ws inputs
 
+/-! ### constructor arguments of the Keras base class that reach it through `**kwargs`
+
+  `QGlobalAveragePooling2D(keepdims=True)`, `QConv2D(groups=2)`, `QConv1D(data_format=…)`,
+  `QLSTM(time_major=True)`: the library class does not name the argument; it travels through
+  `**kwargs` to the Keras base class, which stores it as an attribute (read by the library's own
+  `call`: `K.sum(..., keepdims=self.keepdims)`), and only the BASE class' `get_config` writes it
+  (`super().get_config()`).  `Layer.kwargs` is the serialised form of those attributes; the functions
+  below say where it comes from. -/
+
+/-- one base-class constructor argument of a layer class -/
+structure BaseKw where
+  name : String
+  default : PyVal
+  /-- `get_config()` of the class has the key -/
+  emitted : Bool
+  /-- the inference computation reads the attribute -/
+  read : Bool
+deriving Repr
+
+/-- the attributes a constructed layer holds for its base-class arguments: the caller's value if the
+    caller gave one (`cls(..., **user)`), the base class' default otherwise -/
+def heldKw (bks : List BaseKw) (user : Cfg) : Cfg :=
+  bks.map fun b => (b.name, (user.lookup b.name).getD b.default)
+
+/-- the part of `get_config()` that carries base-class arguments -/
+def kwGetConfig (bks : List BaseKw) (held : Cfg) : Cfg :=
+  (bks.filter (·.emitted)).map fun b => (b.name, (held.lookup b.name).getD b.default)
+
+/-- `cls(**config)`: the same constructor, the config in the place of the caller's keywords -/
+def kwFromConfig (bks : List BaseKw) (cfg : Cfg) : Cfg := heldKw bks cfg
+
+/-! ### the caller's own `custom_objects` on the three routes
+
+  `clone_model(model, custom_objects)`, `quantized_model_from_json(json, custom_objects)` and
+  `load_qmodel(path, custom_objects)` all start with: `{}` if the argument is falsy, a deep copy of it
+  otherwise, then `_add_supported_quantized_objects(copy)` — the library's keys are ASSIGNED, so they are
+  present whatever the caller passed and win over a caller's key of the same name. -/
+
+inductive Route where
+  | json | clone | h5
+deriving Repr, DecidableEq
+
+/-- the keys of the table Keras' deserialiser sees on route `r` when the caller passes a dict with the
+    keys `user` (None / `{}` = `[]`) -/
+def routeTable (E : Env) (_r : Route) (user : List String) : List String :=
+  (user.filter fun k => !E.customObjects.contains k) ++ E.customObjects
+
+def Env.withUser (E : Env) (r : Route) (user : List String) : Env :=
+  { E with customObjects := routeTable E r user }
+
+/-- route `r` with the caller's custom objects: serialise (the original's own config), then Keras'
+    deserialiser with the route's table -/
+def rebuildWith (E : Env) (r : Route) (user : List String) (m : Model) : Except Err Model :=
+  if modelGetConfigRaises E m then .error .attributeError
+  else modelFromConfig (E.withUser r user) (modelGetConfig E m)
+
 end QKV.LC
